@@ -555,6 +555,10 @@ def judge(case, obs, answers=None):
                 fails.append(("verdict-differs-from-reference-" + spec[0],
                               "the %s validator said %s for data its configuration %s"
                               % (spec[0], v, "accepts" if ref else "rejects"), [i]))
+        if answers is not None and answers[i] == "S" and v != "raise:BoboValidatorError" \
+                and py_jsonable(o["data"]):
+            fails.append(("invalid-schema-not-reported", "is_valid gave %s for an invalid schema instead of raising "
+                          "BoboValidatorError" % v, [i]))
         if isinstance(v, str):
             if not (invalid_schema and v == "raise:BoboValidatorError"):
                 fails.append(("validator-raised", "is_valid raised %s instead of giving a verdict" % v[6:], [i]))
